@@ -340,7 +340,7 @@ def history_worker(job):
 
 def run(ctx):
     quick = ctx.tier == 'quick'
-    depth = int(ctx.opts.get('depth', 3 if quick else 4))
+    depth = int(ctx.opts.get('depth', 3))       # thorough: same history depth, the full expression family (depth 4 does not fit: hours)
     K = 64
     nh = nc = nv = 0
     for a, b, c, viols, no in runner.pmap_unordered(history_worker, [(k, K, depth, quick) for k in range(K)]):
